@@ -568,11 +568,11 @@ def run(ctx):
 
     # ---- leg M + A: getter protocol over a value pool ---------------------------------------------
     # (the numeric strings include the candidate bounds 0 / 10 / 7.0 themselves: boundary cases)
-    pool = ['', '12', '-3', '0', '10', '7.0', '1.5', 'abc', 'true', '0a5b8f3c-9a1e-4c7d-8b2f-1f2e3d4c5b6a', '2024-02-29',
-            ' 7 ', 'no', '1e1', '41', '2024-02-29T12:30:45+0100', '{"a": [1, 2]}', '"x"',
+    pool = ['', '-3', '0', '10', '7.0', 'abc', 'true', '0a5b8f3c-9a1e-4c7d-8b2f-1f2e3d4c5b6a', '2024-02-29',
+            '12', '1.5', ' 7 ', 'no', '1e1', '41', '2024-02-29T12:30:45+0100', '{"a": [1, 2]}', '"x"',
             'é,&=+%', '１２', '9999999999999', '2024-02-30']
     if ctx.quick:
-        pool = pool[:11]
+        pool = pool[:9]
     table = {'nv': len(pool), 'conv': {}}
     unrep = set()            # (kind, value index) the abstraction cannot represent: those cases are not replayed
     for kind in ('str', 'int', 'float', 'bool', 'uuid', 'datetime', 'date', 'json'):
